@@ -391,7 +391,7 @@ CLAIMS = [
           "every escape byte, arbitrary decoded values", configs=("fast",), also=("C17", "C13")),
     Claim("c01_r6rs_char", "C01", "quick", claim_r6rs_char,
           "`#\\c` followed by a delimiter reads as c, `#\\x<hex>` as that scalar value (valid ones only), `#\\x` alone as x",
-          "every initial byte and lookahead byte", configs=("fast",), also=("C13", "C12", "C02")),
+          "every initial byte and lookahead byte", configs=("fast",), also=("C13", "C12", "C02", "C11")),
 ]
 
 
@@ -705,12 +705,12 @@ CLAIMS += [
     Claim("c02_elisp_char", "C02", "quick", claim_elisp_char,
           "`?c` reads as c, `?\\c` for c in ()[]\;|'`#., reads as c, `?\\x<hex>` as that (valid) scalar value; the hex loop "
           "accumulates n*16+d and stops before the first non-hex byte",
-          "every initial / lookahead byte; any number of hex digits (loop induction)", configs=("fast",), also=("C13", "C17", "C03")),
+          "every initial / lookahead byte; any number of hex digits (loop induction)", configs=("fast",), also=("C13", "C17", "C03", "C11")),
     Claim("c02_digit_loops", "C02", "quick", claim_digit_loops,
           "digit accumulators of `\\NNN` (n0 = first digit, n*8+d, stops before a non-octal byte), `\\uNNNN` / `\\UNNNNNNNN` "
           "(n0 = 0, exactly `count` hex digits, n*16+d) and `#\\x<hex>` (n0 = 0, n*16+d up to a delimiter / EOF, `no digits` "
           "reported only if none was read), all under the 24-bit guard; base cases of the two string / character hex loops",
-          "any number of digits (one-step induction with base case)", configs=("fast",), also=("C01", "C13", "C17", "C12")),
+          "any number of digits (one-step induction with base case)", configs=("fast",), also=("C01", "C13", "C17", "C12", "C11")),
     Claim("c01_escape_composition", "C01", "quick", claim_escape_composition,
           "what the string printers emit for a byte (spec checked against the printer code) is mapped back to the same byte "
           "by the escape semantics (spec checked against the reader code), for every byte, R6RS and Emacs string syntax",
